@@ -305,6 +305,36 @@ def build_constraints_from_pbox_robust(q_a, p_a, q_b, p_b, x_grid, n=None, eps=1
 
 
 def variance_bounds_via_lp(q_a, p_a, q_b, p_b, x_grid, n=None, mu_grid=101):
+    """mean and variance bounds of the p-box on `x_grid`
+
+    note:
+        the linear programmes are solved on the grid shifted and scaled to [0, 1]; the
+        bounds are mapped back afterwards (mean = x0 + s * mean_z, var = s**2 * var_z).
+        On the raw grid ``E[X**2] - mu**2`` cancels catastrophically for supports far from
+        zero and the solver fails for very large or very small magnitudes.
+    """
+    x_grid = np.asarray(x_grid, float)
+    x0 = x_grid[0]
+    s = x_grid[-1] - x_grid[0]
+    if not np.isfinite(x0) or not np.isfinite(s):
+        raise ValueError("moment bounds need a finite support")
+    if s <= 0:
+        s = 1.0
+    res = _variance_bounds_via_lp_on_grid(
+        (np.asarray(q_a, float) - x0) / s,
+        p_a,
+        (np.asarray(q_b, float) - x0) / s,
+        p_b,
+        (x_grid - x0) / s,
+        n=n,
+        mu_grid=mu_grid,
+    )
+    res["var_min"], res["var_max"] = res["var_min"] * s * s, res["var_max"] * s * s
+    res["mu_min"], res["mu_max"] = x0 + s * res["mu_min"], x0 + s * res["mu_max"]
+    return res
+
+
+def _variance_bounds_via_lp_on_grid(q_a, p_a, q_b, p_b, x_grid, n=None, mu_grid=101):
     x, L, U, n, F_L, F_U = build_constraints_from_pbox_robust(
         q_a, p_a, q_b, p_b, x_grid, n=n
     )
